@@ -40,7 +40,8 @@ func (c17) Meta() fw.Meta {
 			"The Go race detector is on in every process (harness, CLI, server); reports are collected from GORACE log files and each is a violation. " +
 			"non-trivial = trial in which at least two distinct requests were in flight simultaneously (measured in the harness); distinct by (kind, seed, index)." +
 			" After the parallel phase: a request that fails after its file was opened (archive id out of range, from > until), then a valid request for the same file with a 20 s deadline." +
-			" Concurrent sums run under a 240 s watchdog; every 2nd server trial adds 90 simultaneous requests for a file a writer holds for 1-1.5 s plus one request per other endpoint meanwhile.",
+			" Concurrent sums run under a 240 s watchdog; every 2nd server trial adds 90 simultaneous requests for a file a writer holds for 1-1.5 s plus one request per other endpoint meanwhile." +
+			" Every 2nd shared-handle trial has one damaged archive next to healthy ones (reference: a fresh handle per request); the parallel request mix contains 30 failing requests of five kinds.",
 		Assumptions: []string{
 			"the race detector sees only races that happen in the executed schedules; in-flight overlap is measured and a trial without overlap does not count as non-trivial",
 			"requests carry their clock (now) so sequential and concurrent executions are comparable bit for bit",
